@@ -848,6 +848,22 @@ class BlockBase(Base):
                                 return None
                             continue
                         if isinstance(obj, di.End_Do_Stmt):
+                            if (
+                                sum(
+                                    isinstance(
+                                        item,
+                                        (di.Label_Do_Stmt, di.Label_Do_Stmt_2008),
+                                    )
+                                    for item in content
+                                )
+                                > 1
+                            ):
+                                # Several DOs may share a terminating action
+                                # statement (or CONTINUE) but not an END DO,
+                                # which ends exactly one construct.
+                                for obj in reversed(content):
+                                    obj.restore_reader(reader)
+                                return None
                             end_name = obj.get_end_name()
                             start_name = content[start_idx].get_start_name()
                             if (end_name or "").lower() != (start_name or "").lower():
